@@ -313,7 +313,10 @@ F17Gone == ProcessedBaseSound
 IllOps == {Calc("k", Ref("z")), Calc("b", Fn("neg", <<B>>)), Proj({"a", "z"}),
            SelRaw(Cmp("eq", Ref("z"), Lit(0))), Sort(<<Term(Ref("z"), TRUE)>>), Slice(3, 1), Slice(-1, 2)}
 SomeOpts == {Opts("none", TRUE, FALSE, FALSE), Opts("sql", TRUE, FALSE, TRUE), Opts("it2", FALSE, TRUE, FALSE),
-             Opts("sql", TRUE, TRUE, FALSE), Opts("it1", TRUE, FALSE, FALSE)}
+             Opts("sql", TRUE, TRUE, FALSE), Opts("it1", TRUE, FALSE, FALSE),
+             \* a preferred engine alone (no transfer, not required): when backtracking is off or fails the
+             \* operation lands in the CURRENT engine, which must then support it
+             Opts("sql", TRUE, FALSE, FALSE), Opts("sql", FALSE, FALSE, FALSE), Opts("it2", TRUE, FALSE, FALSE)}
 \* operations restricted to one kind of engine, requested towards the other kind
 OnlyIterNeg == [x |-> "fn", f |-> "neg", args |-> <<A>>, only |-> "iter"]
 OnlySqlNeg == [x |-> "fn", f |-> "neg", args |-> <<A>>, only |-> "sql"]
